@@ -307,7 +307,10 @@ class MetaModule(BaseMetaModule, Module):
             controllers = list(mod.controllers.items())
             ctl_name, ctl = controllers[controller_index]
             t = ctl.instance_value_type(mod)
-            if isinstance(t, Range):
+            if isinstance(t, Range) and controller.value_type != t:
+                # The user defined controller still has its placeholder range,
+                # so its value is zero-based. Once it has taken over the
+                # target's range, its value is already in the target's units.
                 value += t.min
             ctl.propagate(mod, value, down=True)
         super(MetaModule, self).on_controller_changed(controller, value, down, up)
